@@ -13,8 +13,10 @@ template class multiset<int>;
 template class map<int, int>;
 template class multimap<int, int>;
 // one use of the members of the (implicitly instantiated) base class map_base so that clang instantiates their bodies
-inline void c06_use(map<int, int>& m, multimap<int, int>& mm, multiset<int>& ms)
+inline void c06_use(map<int, int>& m, multimap<int, int>& mm, multiset<int>& ms, unordered_set<int>& us, unordered_map<int, int>& um, unordered_multimap<int, int>& umm)
 {
+	(void)(us == us); (void)(um == um); (void)(umm == umm);   // friend operator== bodies
+	(void)m.at(1); m[1] = 2; m.try_emplace(1, 2); m.insert_or_assign(1, 2); (void)um.at(1); um[1] = 2; um.try_emplace(1, 2); um.insert_or_assign(1, 2);
 	ms.insert(ms.begin(), 1);
 	m.emplace(1, 2); m.emplace_hint(m.begin(), 1, 2);
 	mm.emplace(1, 2); mm.emplace_hint(mm.begin(), 1, 2);
